@@ -721,13 +721,47 @@ func toLower(s string) String {
 	return unicodeStringFromRunes(r)
 }
 
+// mapCase applies a case mapping function (which works on UTF-8) to the string. Invalid surrogates cannot be
+// represented in UTF-8, so the function is applied to the well-formed segments between them and the invalid
+// surrogates are passed through unchanged (they are neither cased nor case-ignorable, so the result is the same
+// as if the mapping were applied to the sequence of code points).
+func (s unicodeString) mapCase(f func(string) String) String {
+	u := s[1:]
+	var sb StringBuilder
+	start := 0
+	for i := 0; i < len(u); i++ {
+		c := u[i]
+		if !utf16.IsSurrogate(rune(c)) {
+			continue
+		}
+		if isUTF16FirstSurrogate(c) && i+1 < len(u) && isUTF16SecondSurrogate(u[i+1]) {
+			i++
+			continue
+		}
+		if i > start {
+			sb.WriteString(f(string(utf16.Decode(u[start:i]))))
+		}
+		sb.WriteRune(rune(c))
+		start = i + 1
+	}
+	if start == 0 {
+		return f(s.String())
+	}
+	if start < len(u) {
+		sb.WriteString(f(string(utf16.Decode(u[start:]))))
+	}
+	return sb.String()
+}
+
 func (s unicodeString) toLower() String {
-	return toLower(s.String())
+	return s.mapCase(toLower)
 }
 
 func (s unicodeString) toUpper() String {
 	caser := cases.Upper(language.Und)
-	return newStringValue(caser.String(s.String()))
+	return s.mapCase(func(str string) String {
+		return newStringValue(caser.String(str))
+	})
 }
 
 func (s unicodeString) Export() interface{} {
